@@ -175,6 +175,7 @@ type NodeCfg struct {
 	MTU      uint32
 	LinkAddr tcpip.LinkAddress // non-empty => Ethernet-like: resolution required
 	ARP      bool
+	Net      []string // network protocols of the stack (nil: IPv4, IPv6 and ARP)
 }
 
 var allNet = []string{ipv4.ProtocolName, ipv6.ProtocolName, arp.ProtocolName}
@@ -182,7 +183,11 @@ var allTrans = []string{tcp.ProtocolName, udp.ProtocolName}
 
 // AddNode creates a stack with NIC 1 on a wire port and default routes through it.
 func (w *World) AddNode(c NodeCfg) *Node {
-	s := stack.New(allNet, allTrans, stack.Options{Clock: vclock{}})
+	nets := allNet
+	if c.Net != nil {
+		nets = c.Net
+	}
+	s := stack.New(nets, allTrans, stack.Options{Clock: vclock{}})
 	n := &Node{Name: c.Name, S: s, Ports: map[tcpip.NICID]*wirePort{}}
 	w.Nodes = append(w.Nodes, n)
 	w.AddNIC(n, 1, c)
